@@ -401,6 +401,25 @@ HARNESS_RULE = ("a case = (grammar, entry rule, input string, optional text befo
                 "6 grammar tokens (capped) and hostile strings, deduplicated, so every case is distinct; non-trivial = the typed prefix parse consumed at least one byte, or "
                 "failed on a non-empty input")
 
+def run_rtmon(ctx, prop=None):
+    binary = ctx.build("rtmon")
+    doc = ctx.run_engine(binary, ["--prop", prop or ctx.pid], "rtmon")
+    doc["engine_args"] = {"engine": "rtmon", "prop": prop or ctx.pid}
+    return doc
+
+
+def run_c06(ctx):
+    if ctx.replay:
+        return run_harness(ctx)
+    direct = run_rtmon(ctx, "C06")
+    generated = run_harness(ctx)
+    merged = merge_results([direct, generated])
+    merged["exhaustive"] = True
+    merged["scope"] = direct.get("scope", "") + "; plus the slice and stack grammar families through generated parsers (atomic and non-atomic context)"
+    merged["rule"] = direct.get("rule", "") + " || " + HARNESS_RULE
+    return merged
+
+
 def run_c09(ctx):
     docs = [run_harness(ctx, profile="dev")]
     # release: debug assertions off (unchecked slicing); the kind-nesting and slice families add
@@ -450,6 +469,8 @@ def harness_prop(pid, technique, text, note, required, level="exploration", desi
 
 NOT_APPLICABLE = {}
 ENGINES = [
+    {"name": "rtmon", "path": "engines/rtmon", "serves_properties": ["C06", "C19"],
+     "kind_free_text": "small-scope exhaustive monitors on raw combinators and stack nodes instantiated directly from pest_typed (no generated parser)"},
     {"name": "harness", "path": "engines/harness", "serves_properties": ["C01", "C02", "C03", "C04", "C05", "C06", "C07", "C08", "C09", "C10", "C11", "C15", "C16", "C17", "C18", "C20"],
      "kind_free_text": "generated recorder: per corpus grammar the real derive (pest_typed_derive) and pest_derive side by side, generic case runner over the public API, oracles (pest, reference interpreter, self-differential), sharded binaries (sources emitted by vgen, gitignored)"},
     {"name": "refpeg", "path": "engines/refpeg", "serves_properties": ["C01", "C02", "C04", "C05", "C06", "C07", "C10", "C11", "C16", "C17", "C20"],
@@ -526,11 +547,22 @@ PROPS = {
         "clone == original (both ways), same Debug, same hash; two parses of the same &str compare equal and hash equally; for up to six windows of one parent string all ordered pairs: a == b iff Debug(a) == Debug(b), and then equal hashes.",
         "SipHash with fixed keys (DefaultHasher::new)",
         {"values_checked": 20000, "reparsed_twice": 100000, "result_pairs_compared": 100000, "result_pairs_equal": 20000}),
-    "C06": harness_prop(
+    "C19": {
+        "run": run_rtmon,
+        "engine": "rtmon",
+        "technique": "small-scope exhaustive runtime monitor on combinators instantiated directly from the runtime crate, against a list-level model written from the statement; parse vs check self-differential",
+        "design_ref": "6/C19",
+        "level_text": "345 instantiations (RepMinMax for all MIN,MAX in 0..=4 incl. MIN>MAX, RepMin, RepExact, Rep, RepOnce with skip on/off; [T;N]; (T1,T2); Option; AtomicRepeat; SkipChar) x four element kinds (string, choice, nested repetition, PUSH~POP) x every string of length <= 8 (thorough 9) over {x, y, space}: verdict, cursor, element count, bounds, stack afterwards, parse vs check.",
+        "level_note": "the model is 20 lines written from the property statement (greedy, skip only kept before a matched iteration, fail iff fewer than MIN or bounds unsatisfiable)",
+        "level": "exploration",
+        "required": {"instantiations_RepMinMax": 200, "instantiations_RepMin": 40, "instantiations_array": 20, "instantiations_pair": 16, "instantiations_SkipChar": 5, "matched": 100000, "failed": 100000},
+        "assumptions": ["release profile of the engine; x86_64-linux", "elements never match the empty string (so zero-progress iterations, which the statement does not cover, do not occur)"],
+    },
+    "C06": dict(harness_prop(
         "C06", "differential runtime monitor on the slice / stack families (final stack contents with a harness-owned Stack) + small-scope exhaustive direct instantiation of the stack nodes (rtmon)",
         "Generated parsers for PUSH ... PEEK[a..b] with every a,b in -6..6 (and open-ended) in atomic and non-atomic context and for every stack built-in inside every backtracking construct: verdict/offset vs pest or refpeg, and the contents of the explicit Stack after try_parse_partial_with / try_check_partial_with vs the model's stack.",
         "empty-stack PEEK/POP/DROP must fail, not unwind (an unwind is reported here and by C09)",
-        {"verdicts_compared": 50000, "final_stacks_compared": 5000, "oracle_refpeg_pest_panicked": 500}),
+        {"verdicts_compared": 50000, "final_stacks_compared": 5000, "oracle_refpeg_pest_panicked": 500, "stacks": 341, "slices_out_of_range": 10000, "slices_empty": 5000, "model_accepts": 50000}), run=run_c06, engine="rtmon+harness"),
     "C09": {
         "run": run_c09,
         "engine": "harness",
